@@ -106,6 +106,24 @@ func main() {
 		Extra: func(cfg *hx.Cfg, do func(id string, c fsmx.Case)) {
 			sweep(cfg, do)
 			fsmx.ExitProduct(do, "SFE", true)
+			// well-formed UPDATEs carrying optional attributes a conforming peer may send, on 2- and 4-octet AS sessions
+			for _, sess := range []string{"s65001/65002/10/90/46/0000/0/00/0.0/A/i", "s65001/65001/10/90/4/0000/0/00/0.0/R/i"} {
+				pas := "65002"
+				if sess[7:12] == "65001" {
+					pas = "65001"
+				}
+				for _, caps := range []string{"a" + pas + "+m2.1", "m2.1", "-"} {
+					for _, v := range []string{"as4path", "as4path0", "as4aggr", "unk", "unknt"} {
+						in := fmt.Sprintf("%s 0.e1 0.up 0.m:O,4,%s,90,7,%s 0.m:K 0.m:A,1,%s 0.m:U,2,- 0.m:K", sess, pas, caps, v)
+						c, err := fsmx.ParseCase(in)
+						if err != nil {
+							fmt.Println("HARNESS-ERROR attribute case:", err)
+							return
+						}
+						do(fmt.Sprintf("attr-%s-%s-%s", pas, caps, v), c)
+					}
+				}
+			}
 		},
 	})
 }
